@@ -32,12 +32,18 @@ PT = {
     "layer_block": "@layer base { .lb { margin: 0 } @layer inner, outer; }",
     "container_block": "@container card (min-width: 400px) { .cb { padding: 0 } }",
     "media_statementless": "@media print { }",
+    # escapes of surrogate code points, zero and beyond U+10FFFF all mean U+FFFD (css-syntax, "consume an escaped code point")
+    "surrogate_escape": '.s::before { content: "\\d83d\\de00 \\0 \\110000" }',
 }
 PT_ORDER = list(PT)
 # extra rule kinds only relevant here (comment inside the colour declaration)
 G.KINDS.setdefault("comment_in_decl", lambda: G.Item("comment_in_decl", [("margin", "0", False), "/* before */", ("color", "#777 /* tail */", False), "/* after */"]))
 G.KINDS.setdefault("comment_in_func_decl", lambda: G.Item("comment_in_func_decl", [("color", "rgb(119, 119, 119) /* was 40 */", False), ("background-color", "#fff", False)]))
 G.KINDS.setdefault("comment_before_value", lambda: G.Item("comment_before_value", [("color", "/* 50 */ #777", False)]))
+# comments in the places a declaration *node* has no slot for: between the name and the colon, after !important
+G.KINDS.setdefault("odd_comment_places", lambda: G.Item("odd_comment_places", ["margin/*k1*/: 0 !important/*k2*/", ("color", "#777", False)]))
+G.KINDS.setdefault("root_odd_comments", lambda: G.Item("root_odd_comments", [("color", "#222", False)],
+                                                       extra_blocks=("html {\n  margin/*keep1*/: 0 !important/*keep2*/;\n}\n",)))
 
 
 ROOT_KEYS = (O.sel_key(":root"), O.sel_key("html"))
@@ -111,6 +117,20 @@ def _short(x):
     return repr(x)[:120]
 
 
+def _without_comments_after_important(tree):
+    def fix(x):
+        if isinstance(x, tuple) and x and x[0] == "decl" and x[3] and isinstance(x[2], tuple):
+            vals = list(x[2])
+            while vals and isinstance(vals[-1], tuple) and vals[-1] and vals[-1][0] in ("comment", "ws"):
+                vals.pop()
+            return (x[0], x[1], tuple(vals), x[3])
+        if isinstance(x, tuple):
+            return tuple(fix(y) for y in x)
+        return x
+
+    return fix(tree)
+
+
 def judge_obs(sheet, settings, ob, extra_names=()):
     case = {"kind": "sheet", "spec": sheet.describe(), "settings": list(settings)}
     out = []
@@ -168,6 +188,10 @@ def judge_obs(sheet, settings, ob, extra_names=()):
         d = first_diff(a, b) or "trees differ"
         kind = "comment_lost" if "comment" in d else "declaration_changed" if "declaration" in d else "structure_changed"
         culprit = next((it.kind for sel, it, _w in sheet.rules if ("rule %s" % sel) in d), "passthrough")
+        if _without_comments_after_important(a) == _without_comments_after_important(b):
+            # the specific mechanism of a recorded finding: the only thing lost are comments written after '!important'
+            # (a re-serialised declaration has no place for them)
+            kind, culprit = "comment_lost", "after_important_in_reserialised_rule"
         v("preserve/%s/%s" % (kind, culprit), "the written file differs from the input outside the adjusted colour values: %s" % d)
     # the values that were allowed to change must themselves be valid CSS: a colour CSS Color 3 defines, or a var() reference
     from mc.oracle import css_color
@@ -266,7 +290,8 @@ def chunk(job):
 
 
 PATH_FORMS = ["absolute", "relative", "dot_slash", "dotdot", "dir_with_space", "symlink", "dir_trailing_slash", "dir_relative",
-              "via_dir_symlink", "dir_symlink_then_dotdot", "dir_symlink_then_dotdot_abs", "dir_symlink_then_dotdot_dir"]
+              "via_dir_symlink", "dir_symlink_then_dotdot", "dir_symlink_then_dotdot_abs", "dir_symlink_then_dotdot_dir",
+              "output_path_is_symlink", "output_path_is_symlink_dir", "dir_with_file_named_dot_css"]
 
 
 def judge_path_form(form, spec, settings):
@@ -310,6 +335,18 @@ def judge_path_form(form, spec, settings):
                 arg = os.path.join(cwd, arg)
             if form == "dir_symlink_then_dotdot_dir":
                 arg = os.path.join("deep", "..")
+        elif form in ("output_path_is_symlink", "output_path_is_symlink_dir"):
+            # something left a link where the output goes (pointing at another file of the project): writing the output must
+            # not write *through* it
+            bystander = os.path.join(base, "css", "notes.txt")
+            open(bystander, "w").write("KEEP ME\n")
+            os.symlink("notes.txt", expect)
+            arg = real if form == "output_path_is_symlink" else os.path.join(base, "css")
+        elif form == "dir_with_file_named_dot_css":
+            # a file whose whole name is ".css" (no stem): a single-file invocation ignores it; a directory run must not
+            # turn it into an output that is not <name>_cm.css
+            open(os.path.join(base, "css", ".css"), "w").write(".dot { color: #777; }\n")
+            arg = os.path.join(base, "css")
         elif form == "dir_trailing_slash":
             arg = os.path.join(base, "css") + os.sep
         elif form == "dir_relative":
@@ -331,6 +368,13 @@ def judge_path_form(form, spec, settings):
             out.append(dict(sig="path/cli_raises", case=case, msg="cm-colors %s (cwd %s) exited %s: %s" % (arg, os.path.relpath(cwd, base), res["exit_code"], res["exc"])))
         if open(real, "rb").read() != before_real:
             out.append(dict(sig="input/bytes_changed", case=case, msg="path form %s: the input was modified" % form))
+        if form == "dir_with_file_named_dot_css":
+            allowed.add(os.path.join("css", ".css"))
+        if form.startswith("output_path_is_symlink"):
+            allowed.add(os.path.relpath(bystander, base))
+            if open(bystander).read() != "KEEP ME\n":
+                out.append(dict(sig="input/other_file_overwritten_through_link", case=case,
+                                msg="path form %s: %s was a link to notes.txt and the run wrote the stylesheet into notes.txt" % (form, os.path.relpath(expect, base))))
         junk = any(any(isinstance(d, str) and not d.startswith("/*") for d in it.decls) for _, it, _ in sheet.rules)
         if not os.path.exists(expect) and not junk:
             out.append(dict(sig="path/output_not_beside_input", case=case, msg="path form %s (%s): no %s; files now: %s"
@@ -363,7 +407,7 @@ def jobs(ctx):
     rot = ctx.phase * 3
     P = PT_ORDER[rot % len(PT_ORDER):] + PT_ORDER[:rot % len(PT_ORDER)]
     out = []
-    centre = ["lit_fail", "var_t", "root_literal", "with_noise", "important", "comment_in_decl", "comment_in_func_decl", "comment_before_value"]
+    centre = ["lit_fail", "var_t", "root_literal", "with_noise", "important", "comment_in_decl", "comment_in_func_decl", "comment_before_value", "odd_comment_places"]
     # (a) every passthrough item alone, before and after one adjusted rule
     for p in P:
         out.append(([("readable", "none")], [(0, PT[p])], S1))
@@ -381,7 +425,7 @@ def jobs(ctx):
             if not q:
                 out.append(([(a, "none"), (b, "supports")], [(1, PT[p1]), (2, PT[p2])], S1))
     # (c) every rule item alone and every ordered pair (no passthrough): structure of modified rules
-    K = G.ORDER + ["comment_in_decl", "comment_in_func_decl", "comment_before_value"]
+    K = G.ORDER + ["comment_in_decl", "comment_in_func_decl", "comment_before_value", "odd_comment_places", "root_odd_comments"]
     for k in K:
         for wname in G.WRAPPERS:
             if k in ("root_literal", "html_literal") and wname != "none":
